@@ -448,8 +448,29 @@ func TestC05GrpcDebug(t *testing.T) {
 	}
 	var seed int64
 	fmt.Sscan(s, &seed)
-	r := c05GrpcSession(seed, 120*time.Second)
-	fmt.Printf("completed=%v safety=%q profile=%s %s\n", r.completed, r.safety, r.profile, r.progress)
+	n := 1
+	if v := getenv("C05_GRPC_N"); v != "" {
+		fmt.Sscan(v, &n)
+	}
+	sem := make(chan struct{}, 8)
+	var wg sync.WaitGroup
+	var done, bad atomic.Int64
+	for i := 0; i < n; i++ {
+		sem <- struct{}{}
+		wg.Add(1)
+		go func(sd int64) {
+			defer wg.Done()
+			defer func() { <-sem }()
+			r := c05GrpcSession(sd, 120*time.Second)
+			done.Add(1)
+			if !r.completed || r.safety != "" || n == 1 {
+				bad.Add(1)
+				fmt.Printf("seed=%d completed=%v safety=%q profile=%s %s events=%v\n", sd, r.completed, r.safety, r.profile, r.progress, r.rep["events"])
+			}
+		}(seed + int64(i))
+	}
+	wg.Wait()
+	fmt.Printf("sessions=%d reported=%d\n", done.Load(), bad.Load())
 }
 
 // trackingListener remembers the connections the gRPC server accepted.
